@@ -2,7 +2,8 @@
 import os, json, glob
 from explore import Job, run_jobs, generic_search, generic_replay, Disagreement, impl_step, _masked_equal
 import c05lib
-from c05lib import AFifoInst, BusSyncInst, BusSync1Inst, PulseSyncInst, AxiLiteCdcInst, AFifoRstInst
+from c05lib import (AFifoInst, BusSyncInst, BusSync1Inst, PulseSyncInst, AxiLiteCdcInst, AFifoRstInst, UartFifoInst,
+                    same_domain_inst, run_jobs_safe, CrossScoreboard)
 from litex.soc.interconnect import stream
 
 L1 = [("data", 1)]
@@ -22,6 +23,15 @@ def _uart_fifo(depth, sink_cd, source_cd):
     return uart._get_uart_fifo(depth, sink_cd=sink_cd, source_cd=source_cd)
 
 
+L64 = [("data", 64)]
+WIDE_P = [("data", 128), ("keep", 16)]      # payload wider than 32/64 bits ...
+WIDE_Q = [("id", 5)]                        # ... plus a param field (packed into the fifo word after the payload)
+
+
+def _wide_fifo(depth, buffered):
+    return stream.AsyncFIFO(stream.EndpointDescription(WIDE_P, WIDE_Q), depth, buffered=buffered)
+
+
 def jobs(tier):
     quick = tier == "quick"
     J = []
@@ -29,36 +39,58 @@ def jobs(tier):
 
     def B(mk, cycles=6000, **kw):
         J.append(Job("B", mk, cycles=cycles if quick else cycles * 6, runs=1 if quick else 3, **kw))
-    alt = dict(tokens=(TA, TB), alternate=True)
+    alt = dict(tokens=(TA, TB), alternate=True, layout=L1)
     # -- A: complete reachable product, all interleavings {w, r, both} x handshakes x resolutions ------------
     A(lambda: AFifoInst("AsyncFIFO(4)/1b/alt", stream.AsyncFIFO(L1, 4), 2, **alt))
     A(lambda: AFifoInst("AsyncFIFO(4,buffered)/1b/alt", stream.AsyncFIFO(L1, 4, buffered=True), 2, buffered=True, **alt))
-    A(lambda: AFifoInst("ClockDomainCrossing(4,usb->eth)/1b/alt", _cdc(L1, 4), 2, cd_w="usb", cd_r="eth", **alt))
+    # default depth (depth=None must mean 4), renamed domains
+    A(lambda: AFifoInst("ClockDomainCrossing(depth=None,usb->eth)/1b/alt", _cdc(L1, None), 2, cd_w="usb", cd_r="eth",
+                        **alt))
+    # same-domain crossings: a wire / a Buffer, also in a renamed domain
+    A(lambda: same_domain_inst("ClockDomainCrossing(sys->sys)/1b", L1, "sys", False))
+    A(lambda: same_domain_inst("ClockDomainCrossing(sys->sys,buffered)/1b", L1, "sys", True))
+    A(lambda: same_domain_inst("ClockDomainCrossing(usb->usb,buffered)/1b", L1, "usb", True))
     A(lambda: BusSyncInst("BusSynchronizer(2,t=8)/i=3", 2, 8, values=(3,)))
     A(lambda: BusSyncInst("BusSynchronizer(2,t=16)/i=3", 2, 16, values=(3,)))
+    A(lambda: BusSyncInst("BusSynchronizer(3,t=5)/i=7", 3, 5, values=(7,)))
     A(lambda: BusSync1Inst("BusSynchronizer(1)"))
     A(lambda: PulseSyncInst("PulseSynchronizer"))
     if not quick:
         A(lambda: AFifoInst("ClockDomainCrossing(4,buffered,usb->eth)/1b/alt", _cdc(L1, 4, True), 2, buffered=True,
                             cd_w="usb", cd_r="eth", **alt))
-        A(lambda: AFifoInst("AsyncFIFO(4)/1b/free", stream.AsyncFIFO(L1, 4), 2, tokens=(TA, TB)))
+        A(lambda: AFifoInst("AsyncFIFO(4)/1b/free", stream.AsyncFIFO(L1, 4), 2, tokens=(TA, TB), layout=L1))
         A(lambda: AFifoInst("AsyncFIFO(4,buffered)/1b/free/eager", stream.AsyncFIFO(L1, 4, buffered=True), 2,
-                            buffered=True, tokens=(TA, TB), eager=True))
+                            buffered=True, tokens=(TA, TB), eager=True, layout=L1))
         A(lambda: AFifoInst("ClockDomainCrossing(8,usb->eth)/1b/alt", _cdc(L1, 8), 3, cd_w="usb", cd_r="eth", **alt))
         A(lambda: AFifoInst("ClockDomainCrossing(8,buffered,usb->eth)/1b/alt/eager", _cdc(L1, 8, True), 3,
                             buffered=True, cd_w="usb", cd_r="eth", eager=True, **alt))
         A(lambda: BusSyncInst("BusSynchronizer(2,t=8)/i=0,3", 2, 8, values=(0, 3)))
         A(lambda: BusSyncInst("BusSynchronizer(2,t=16)/i=0,3", 2, 16, values=(0, 3)))
     # -- B: realistic sizes, clock ratios 1:1 .. 1:7 both ways with drifting phase ---------------------------
-    B(lambda: AFifoInst("AsyncFIFO(8)/8b", stream.AsyncFIFO(L8, 8), 3))
-    B(lambda: AFifoInst("AsyncFIFO(16,buffered)/32b", stream.AsyncFIFO(L32, 16, buffered=True), 4, buffered=True))
+    B(lambda: AFifoInst("AsyncFIFO(depth=None)/8b", stream.AsyncFIFO(L8), 2, layout=L8))
+    B(lambda: AFifoInst("AsyncFIFO(8)/8b", stream.AsyncFIFO(L8, 8), 3, layout=L8))
+    B(lambda: AFifoInst("AsyncFIFO(16,buffered)/32b", stream.AsyncFIFO(L32, 16, buffered=True), 4, buffered=True,
+                        layout=L32))
+    B(lambda: AFifoInst("AsyncFIFO(8,buffered)/128b+16b payload, 5b param", _wide_fifo(8, True), 3, buffered=True,
+                        layout=WIDE_P, param_layout=WIDE_Q), cycles=4000)
+    B(lambda: AFifoInst("AsyncFIFO(4)/128b+16b payload, 5b param", _wide_fifo(4, False), 2,
+                        layout=WIDE_P, param_layout=WIDE_Q), cycles=4000)
     B(lambda: AFifoInst("ClockDomainCrossing(64,sys->phy)/32b", _cdc(L32, 64, cd_from="sys", cd_to="phy"), 6,
-                        cd_w="sys", cd_r="phy"))
+                        cd_w="sys", cd_r="phy", layout=L32))
     B(lambda: AFifoInst("ClockDomainCrossing(32,buffered)/8b", _cdc(L8, 32, True), 5, buffered=True,
-                        cd_w="usb", cd_r="eth"))
-    B(lambda: AFifoInst("uart tx fifo (16, sys->phy)", _uart_fifo(16, "sys", "phy"), 4, cd_w="sys", cd_r="phy"))
-    B(lambda: AFifoInst("uart rx fifo (16, phy->sys)", _uart_fifo(16, "phy", "sys"), 4, cd_w="phy", cd_r="sys"))
-    B(lambda: AxiLiteCdcInst("AXILiteClockDomainCrossing(sys->phy)"), cycles=1200)
+                        cd_w="usb", cd_r="eth", layout=L8))
+    B(lambda: AFifoInst("ClockDomainCrossing(128,eth->sys)/64b", _cdc(L64, 128, cd_from="eth", cd_to="sys"), 7,
+                        cd_w="eth", cd_r="sys", layout=L64))
+    # the UART FIFO pair: through the selection helper, and through the UART class the way SoCs get it
+    B(lambda: AFifoInst("uart._get_uart_fifo(16, sys->phy)", _uart_fifo(16, "sys", "phy"), 4, cd_w="sys", cd_r="phy",
+                        layout=L8))
+    B(lambda: AFifoInst("uart._get_uart_fifo(16, phy->sys)", _uart_fifo(16, "phy", "sys"), 4, cd_w="phy", cd_r="sys",
+                        layout=L8))
+    B(lambda: UartFifoInst("UART(phy_cd=phy, depth 16): CSR -> tx fifo -> phy", "tx", 4), cycles=4000)
+    B(lambda: UartFifoInst("UART(phy_cd=phy, depth 8): phy -> rx fifo -> CSR", "rx", 3), cycles=4000)
+    B(lambda: AxiLiteCdcInst("AXILiteClockDomainCrossing(sys->phy)/32b data, 32b addr"), cycles=900)
+    B(lambda: AxiLiteCdcInst("AXILiteClockDomainCrossing(phy->sys)/64b data, 40b addr", cd_from="phy", cd_to="sys",
+                             data_width=64, address_width=40), cycles=600)
     # common-reset variant: reset pulses of either domain; long pulses (flush) with the scoreboard armed,
     # arbitrary short pulses for model/code agreement only
     B(lambda: AFifoRstInst("ClockDomainCrossing(8,common_rst)/8b/long resets", L8, 3))
@@ -66,16 +98,49 @@ def jobs(tier):
     B(lambda: AFifoRstInst("ClockDomainCrossing(8,common_rst)/8b/short resets", L8, 3, long_resets=False))
     B(lambda: AFifoRstInst("ClockDomainCrossing(8,buffered,common_rst)/8b/short resets", L8, 3, buffered=True,
                            long_resets=False))
-    # BusSynchronizer: clocks with drift ratio <= 3 (the property's quantifier), coherence monitor armed
+    # BusSynchronizer: clocks with drift ratio <= 3 (the property's quantifier), coherence + convergence monitors
     B(lambda: BusSyncInst("BusSynchronizer(8,t=128)/R<=3", 8, 128, ratio_max=3), cycles=20000)
     B(lambda: BusSyncInst("BusSynchronizer(5,t=19)/R<=3", 5, 19, ratio_max=3), cycles=20000)
     B(lambda: BusSyncInst("BusSynchronizer(32,t=11)/R<=1", 32, 11, ratio_max=1), cycles=20000)
+    B(lambda: BusSyncInst("BusSynchronizer(64,t=128)/R<=3", 64, 128, ratio_max=3), cycles=12000)
+    B(lambda: BusSyncInst("BusSynchronizer(3,t=15)/R<=2", 3, 15, ratio_max=2), cycles=12000)
     # free-running clocks with a fixed phase offset, output clock faster than the input clock
     B(lambda: BusSyncInst("BusSynchronizer(8,t=128)/i:o=30:10 phase 1", 8, 128, pattern=(30, 10, 1)), cycles=12000)
     B(lambda: BusSyncInst("BusSynchronizer(4,t=19)/i:o=14:10 phase 2", 4, 19, pattern=(14, 10, 2)), cycles=12000)
     B(lambda: BusSyncInst("BusSynchronizer(8,t=19)/i:o=10:30 phase 7", 8, 19, pattern=(10, 30, 7)), cycles=12000)
     B(lambda: PulseSyncInst("PulseSynchronizer/spaced pulses"), cycles=20000)
     return J
+
+
+def corner_checks(ctx):
+    """Constructor corners named by the quantifier ("depths"): only powers of two >= 4 are legal depths.  Anything
+    else must be refused; if a changed constructor builds such a FIFO anyway it is driven with the scoreboard."""
+    import random
+    dis = []
+    for what, mk in [("AsyncFIFO(depth=%d)" % d, (lambda d=d: stream.AsyncFIFO(L8, d))) for d in (2, 3, 5, 6, 12)] + \
+                    [("ClockDomainCrossing(depth=%d)" % d, (lambda d=d: _cdc(L8, d))) for d in (3, 6)]:
+        try:
+            m = mk()
+        except (AssertionError, ValueError):
+            ctx.cov.add_cases("corner:" + what + " refused", 1, 1, exhaustive=True)
+            continue
+        depth = int(what.split("=")[1].rstrip(")"))
+        kk = max(2, (depth - 1).bit_length())
+        cdw, cdr = ("usb", "eth") if what.startswith("Clock") else ("write", "read")
+        inst = AFifoInst(what + " (accepted by the constructor)", m, kk, cd_w=cdw, cd_r=cdr, layout=L8)
+        mon = CrossScoreboard(1 << kk)
+        rng = random.Random(ctx.seed + depth)
+        trace = []
+        for t in range(3000):
+            l = inst.gen(rng, t)
+            o = impl_step(inst, l)
+            trace.append(l)
+            msg = mon.observe(l, o)
+            if msg:
+                dis.append(Disagreement(inst, trace, t, o, None, kind="monitor:" + msg))
+                break
+        ctx.cov.add_cases("corner:" + what + " built, scoreboard run", len(trace), len(trace))
+    return dis
 
 
 def _corpus_instance(spec):
@@ -124,9 +189,9 @@ def run_corpus(ctx):
 
 
 def correspond(ctx):
-    dis = run_corpus(ctx)
+    dis = run_corpus(ctx) + corner_checks(ctx)
     ctx.jobs = jobs(ctx.tier)
-    d2, bad = run_jobs(ctx, ctx.jobs)
+    d2, bad = run_jobs_safe(ctx, ctx.jobs, timeout_s=600 if ctx.tier == "quick" else 3000)
     return dis + d2
 
 
